@@ -15,13 +15,14 @@ THOROUGH = QUICK + [("K1", "update2", "n", True), ("K1", "transform", "x", True)
 def obligations(tier):
     obs = []
     KMAX = 450
-    for tmpl, opname, attr, conform in QUICK if tier == "quick" else THOROUGH:
+    NSH = 4
+    for tmpl, opname, attr, conform, sh in [(a, b, c, d, r) for (a, b, c, d) in (QUICK if tier == "quick" else THOROUGH) for r in range(NSH)]:
         obs.append(
             Ob(
-                f"C01.fault.{tmpl}.{opname}{'.' + attr if attr else ''}",
-                make("C01", "eager", tmpl, opname, attr, conform, fault=KMAX),
-                warm(tmpl),
-                f"E2-fault: template {tmpl}, helper {opname}{' on ' + attr if attr else ''} without _inplace; exception injected at the kf-th executed statement of spec_classes code, kf symbolic in [1,{KMAX}] (operations execute fewer statements: the remainder is the 'completed-before-fault' path); symbolic argument values; container length <= 2",
+                f"C01.fault.{tmpl}.{opname}{'.' + attr if attr else ''}.shard{sh}of{NSH}",
+                make("C01", "eager", tmpl, opname, attr, conform, fault=KMAX, inplace_mode=False, fault_shard=(sh, NSH)),
+                warm(tmpl, fault=True),
+                f"E2-fault: template {tmpl}, helper {opname}{' on ' + attr if attr else ''} without _inplace; exception injected at the kf-th executed statement of spec_classes code, kf symbolic in [1,{KMAX}] with kf % {NSH} == {sh} (the shards partition the abort points) (operations execute fewer statements: the remainder is the 'completed-before-fault' path); symbolic argument values; container length <= 2",
                 expect={"fault-injected"},
                 timeout=600 if tier == "quick" else 1800,
                 per_path=60,
